@@ -143,6 +143,7 @@ Hashable(x) ==
     [] x.k = "map"   -> FALSE
     [] x.k = "sub"   -> Hashable(x.x)
     [] x.k = "inst"  -> \A i \in DOMAIN x.fs : Hashable(x.fs[i][2])
+    [] x.k = "ndarray" -> FALSE
     [] OTHER -> TRUE
 
 (* Wire form -> TLA+ values.  In JSON (and inside type descriptors: default values) sets are   *)
